@@ -51,7 +51,7 @@ func c02Run(f []string) string {
 	switch f[0] {
 	case "pipe":
 		return pipeRun(f)
-	case "filt", "vis":
+	case "filt", "vis", "idx":
 		return c02FilterRun(f)
 	case "ctx":
 		// ctx <line> <indices> <names> <name idx> <src> <linenum> <key>
